@@ -265,10 +265,21 @@ def run_property(args):
     # ---------------- evidence
     if not args.no_evidence and not args.harness and not args.limit_family:
         level = "proof" if obligations > 0 else "other"
+        try:
+            claimed = {c["property_id"]: c["level_claimed"]["category"]
+                       for c in json.load(open(os.path.join(ROOT, "MANIFEST.json")))["checks"]}.get(prop)
+        except Exception:
+            claimed = None
+        if claimed == "other":
+            # the behavioural obligations of this property are bounded stand-ins: the few discharged obligations beside
+            # them (syntactic frame obligations, parsing contracts) do not make the property a proved one
+            level = "other"
         ev = {
             "property_id": prop, "tier": args.tier, "seed": args.seed, "level": level,
             "coverage": {
-                **({"obligations": obligations, "discharged": discharged} if obligations > 0 else {}),
+                **({"obligations": obligations, "discharged": discharged} if obligations > 0 and level == "proof" else {}),
+                **({"discharged_beside_the_bounded_checks": discharged, "obligations_beside_the_bounded_checks": obligations}
+                   if obligations > 0 and level != "proof" else {}),
                 "evaluations": paths + len(static),
                 "distinct_nontrivial": obligations + bounded,
                 "rule": "evaluations = symbolic paths explored (each covers every input satisfying its path condition) + "
